@@ -27,7 +27,7 @@ FINDERS = [
     (r'StoreFor<T:Storable>.*::(resolve_id|get__|has__|get_mut__|next_handle|insert/full_refused)', 'find_id_lookups'),
     (r'SegmentationIter|::segmentation', 'find_segmentation'),
     (r'utf8byte|create_milestones', 'find_utf8'),
-    (r'TextSelectionIter', 'find_index_walk'),
+    (r'TextSelectionIter|TextResource::range', 'find_index_walk'),
     (r'RelationMap|RelationBTreeMap|StoreCallbacks<(Annotation|AnnotationData|DataKey|TextResource|AnnotationDataSet)>|StoreFor<(AnnotationData|DataKey)>|preremove__unindex|AnnotationDataSet::|Annotation::remove_data|AnnotationStore::remove_data|AnnotationStore::remove_key', 'find_store_consistency'),
     (r'init_textseliters|next_textselection|FindTextSelectionsIter|TextResource::iter|vx_inserted_c|known_textselection', 'find_related_text'),
 ]
